@@ -42,6 +42,9 @@ type Ctx struct {
 	// says whether it succeeded (bool true / nil error), the one return
 	// statement that reports success.
 	successRet map[*ast.CallExpr]*ast.ReturnStmt
+	// failureRet: for a linked helper whose last result is an error and that
+	// has exactly one return with a non-nil error, that return.
+	failureRet map[*ast.CallExpr]*ast.ReturnStmt
 	requested  map[string]bool
 	idx        map[*packages.Package]*pkgIndex
 
@@ -69,7 +72,7 @@ func loadCtx(repo, tier string, extraEnv []string, buildFlags []string) (*Ctx, e
 		return nil, fmt.Errorf("packages.Load: %v", err)
 	}
 	c := &Ctx{Repo: repo, Tier: tier, funcs: map[string]*FuncInfo{}, LoadEnv: extraEnv, LoadFlags: buildFlags, FileSet: map[string][]string{},
-		linked: map[*ast.CallExpr]*FuncInfo{}, linkedTo: map[*FuncInfo]*ast.CallExpr{}, successRet: map[*ast.CallExpr]*ast.ReturnStmt{}, requested: map[string]bool{}, idx: map[*packages.Package]*pkgIndex{}}
+		linked: map[*ast.CallExpr]*FuncInfo{}, linkedTo: map[*FuncInfo]*ast.CallExpr{}, successRet: map[*ast.CallExpr]*ast.ReturnStmt{}, failureRet: map[*ast.CallExpr]*ast.ReturnStmt{}, requested: map[string]bool{}, idx: map[*packages.Package]*pkgIndex{}}
 	for _, p := range pkgs {
 		if len(p.Errors) > 0 {
 			return nil, fmt.Errorf("package %s has errors: %v", p.PkgPath, p.Errors[0])
@@ -237,6 +240,11 @@ func (c *Ctx) link(anchors map[string]bool) {
 		// results: `a, b, ok := h(x)` where h has exactly one return that reports success —
 		// a and b are then defined by that return's operands, and a passed test of ok
 		// carries the conditions under which that return is reached (Guards)
+		if nres := sig.Results().Len(); nres >= 1 && isErrorType(sig.Results().At(nres-1).Type()) {
+			if F := uniqueFailureReturn(h, nres); F != nil {
+				c.failureRet[s.call] = F
+			}
+		}
 		if nres := sig.Results().Len(); nres >= 2 {
 			if as, ok := s.from.parent[s.call].(*ast.AssignStmt); ok && len(as.Rhs) == 1 && len(as.Lhs) == nres {
 				if S := uniqueSuccessReturn(h, nres); S != nil {
@@ -474,4 +482,24 @@ func uniqueSuccessReturn(h *FuncInfo, nres int) *ast.ReturnStmt {
 		}
 	}
 	return succ
+}
+
+// uniqueFailureReturn returns the single return statement of h whose last
+// operand is a non-nil error, provided every other return has a literal nil
+// there. Otherwise nil.
+func uniqueFailureReturn(h *FuncInfo, nres int) *ast.ReturnStmt {
+	var fail *ast.ReturnStmt
+	for _, r := range h.returnsOf() {
+		if len(r.Results) != nres {
+			return nil
+		}
+		if h.isNilIdent(r.Results[nres-1]) {
+			continue
+		}
+		if fail != nil {
+			return nil
+		}
+		fail = r
+	}
+	return fail
 }
